@@ -13,6 +13,7 @@ import SIM.Driver.Std
 import SIM.Driver.Derive
 import SIM.Driver.Schema
 import SIM.Driver.Neg
+import SIM.Driver.Fp
 open SIM SIM.Driver
 
 /-- diagnostic: `decdbg <case> <root> <registry> <hexbytes>` prints what the registry-directed decoder reads -/
@@ -39,6 +40,7 @@ def dispatch (stream : String) (toks : List String) : Verdict :=
   | "schema" => runP schemaCase toks
   | "decdbg" => runP decdbg toks
   | "neg" => runP negCase toks
+  | "fp" => runP fpCase toks
   | _ => .unmodelled ("unknown stream " ++ stream)
 
 partial def loop (h : IO.FS.Stream) (out : IO.FS.Stream) : IO Unit := do
